@@ -673,8 +673,19 @@ def check_optimize(case, layer_by_layer):
                                     layer_by_layer=layer_by_layer)
     except Exception as e:
         if not bad:
-            bad.append(dict(observed="raises %s: %s" % (type(e).__name__, str(e)[:120]), expected="an optimisation result",
-                            what="gradient: optimize_parameters(use_jac=True) raises"))
+            # only a gradient problem if the same optimisation WITHOUT the analytic gradient goes through
+            # (e.g. layer_by_layer with a layer that adds no parameter makes scipy fail on an empty vector
+            #  with or without jac: not a statement about the gradient)
+            b2 = Built(case)
+            try:
+                with contextlib.redirect_stdout(io.StringIO()):
+                    b2.vqa.optimize_parameters(initial=list(case["angles"]), method="BFGS", use_jac=False,
+                                               layer_by_layer=layer_by_layer)
+                bad.append(dict(observed="raises %s: %s" % (type(e).__name__, str(e)[:120]),
+                                expected="an optimisation result (use_jac=False succeeds)",
+                                what="gradient: optimize_parameters(use_jac=True) raises"))
+            except Exception:
+                calls[0] = -1
     if bad and has_multi(case):
         bad[0]["signature"] = KEY_MULTI
     return (bad[0] if bad else None), calls[0]
@@ -745,6 +756,9 @@ def correspond(ctx):
             continue
         lbl = (k % 2 == 1)
         f, ncalls = check_optimize(case, lbl)
+        if ncalls < 0:
+            corr.tally("optimize_parameters raises with and without jac (ignored)")
+            continue
         nopt += 1
         corr.tally("optimize_parameters(use_jac=True)" + (",layer_by_layer" if lbl else ""))
         if f is not None:
